@@ -308,6 +308,14 @@ def fit_always_fits(ctx, det_base, sc_base):
             for st_ in ast.walk(f.node):
                 if isinstance(st_, ast.Assign) and any(isinstance(t, ast.Attribute) and isinstance(t.value, ast.Name) and t.value.id == me and t.attr == "_X" for t in st_.targets):
                     v_ = st_.value
+                    hops_ = 0
+                    while isinstance(v_, ast.Name) and v_.id != xarg and hops_ < 4:
+                        # a local that holds the validated argument
+                        defs_ = [n.value for n in ast.walk(f.node) if isinstance(n, ast.Assign) and len(n.targets) == 1 and isinstance(n.targets[0], ast.Name) and n.targets[0].id == v_.id]
+                        if len(defs_) != 1:
+                            break
+                        v_ = defs_[0]
+                        hops_ += 1
                     if isinstance(v_, ast.Name) and v_.id == xarg:
                         ctx.holds(rule, f"{cls.name}.fit|_X-container", f.loc(st_), "fit stores the validated argument itself (the container kind update() will merge with)")
                     else:
